@@ -27,7 +27,8 @@ Inductive fstat := FRunning | FStopping | FStopped.
 
 (* why a job payload was dropped without being handled or discarded *)
 Inductive cause :=
-| CDeath (a : N)        (* in the running slot / mailbox of actor a when it was killed, failed or panicked *)
+| CDeath (a : N)        (* in the running slot of actor a when it was killed, failed or panicked *)
+| CMailbox (a : N)      (* handed to actor a but not yet taken by its handler when a died *)
 | CStopExit (a : N)     (* left in the mailbox of actor a when it exited on a graceful stop *)
 | CWorkerQueue (w : N)  (* waiting in worker w's message_queue when the factory state was dropped *)
 | CInbox                (* a Dispatch message still in the factory's inbox when the factory exited *)
@@ -97,49 +98,46 @@ Record world := mkWorld {
   inbox_msg : list fmsg;
   actors : list (N * actor);
   now : N;
-  seen : list N;
   evs : list event }.
 
 Definition set_pool_size (x : N) (w : world) : world :=
-  mkWorld x (pool w) (by_actor w) (fq w) (dset w) (drain w) (rr_last w) (avail w) (inq w) (rl w) (next_aid w) (fstatus w) (stop_req w) (held w) (inbox_sup w) (inbox_msg w) (actors w) (now w) (seen w) (evs w).
+  mkWorld x (pool w) (by_actor w) (fq w) (dset w) (drain w) (rr_last w) (avail w) (inq w) (rl w) (next_aid w) (fstatus w) (stop_req w) (held w) (inbox_sup w) (inbox_msg w) (actors w) (now w) (evs w).
 Definition set_pool (x : list (N * wprops)) (w : world) : world :=
-  mkWorld (pool_size w) x (by_actor w) (fq w) (dset w) (drain w) (rr_last w) (avail w) (inq w) (rl w) (next_aid w) (fstatus w) (stop_req w) (held w) (inbox_sup w) (inbox_msg w) (actors w) (now w) (seen w) (evs w).
+  mkWorld (pool_size w) x (by_actor w) (fq w) (dset w) (drain w) (rr_last w) (avail w) (inq w) (rl w) (next_aid w) (fstatus w) (stop_req w) (held w) (inbox_sup w) (inbox_msg w) (actors w) (now w) (evs w).
 Definition set_by_actor (x : list (N * N)) (w : world) : world :=
-  mkWorld (pool_size w) (pool w) x (fq w) (dset w) (drain w) (rr_last w) (avail w) (inq w) (rl w) (next_aid w) (fstatus w) (stop_req w) (held w) (inbox_sup w) (inbox_msg w) (actors w) (now w) (seen w) (evs w).
+  mkWorld (pool_size w) (pool w) x (fq w) (dset w) (drain w) (rr_last w) (avail w) (inq w) (rl w) (next_aid w) (fstatus w) (stop_req w) (held w) (inbox_sup w) (inbox_msg w) (actors w) (now w) (evs w).
 Definition set_fq (x : list (list job)) (w : world) : world :=
-  mkWorld (pool_size w) (pool w) (by_actor w) x (dset w) (drain w) (rr_last w) (avail w) (inq w) (rl w) (next_aid w) (fstatus w) (stop_req w) (held w) (inbox_sup w) (inbox_msg w) (actors w) (now w) (seen w) (evs w).
+  mkWorld (pool_size w) (pool w) (by_actor w) x (dset w) (drain w) (rr_last w) (avail w) (inq w) (rl w) (next_aid w) (fstatus w) (stop_req w) (held w) (inbox_sup w) (inbox_msg w) (actors w) (now w) (evs w).
 Definition set_dset (x : option (N * mode)) (w : world) : world :=
-  mkWorld (pool_size w) (pool w) (by_actor w) (fq w) x (drain w) (rr_last w) (avail w) (inq w) (rl w) (next_aid w) (fstatus w) (stop_req w) (held w) (inbox_sup w) (inbox_msg w) (actors w) (now w) (seen w) (evs w).
+  mkWorld (pool_size w) (pool w) (by_actor w) (fq w) x (drain w) (rr_last w) (avail w) (inq w) (rl w) (next_aid w) (fstatus w) (stop_req w) (held w) (inbox_sup w) (inbox_msg w) (actors w) (now w) (evs w).
 Definition set_drain (x : dstate) (w : world) : world :=
-  mkWorld (pool_size w) (pool w) (by_actor w) (fq w) (dset w) x (rr_last w) (avail w) (inq w) (rl w) (next_aid w) (fstatus w) (stop_req w) (held w) (inbox_sup w) (inbox_msg w) (actors w) (now w) (seen w) (evs w).
+  mkWorld (pool_size w) (pool w) (by_actor w) (fq w) (dset w) x (rr_last w) (avail w) (inq w) (rl w) (next_aid w) (fstatus w) (stop_req w) (held w) (inbox_sup w) (inbox_msg w) (actors w) (now w) (evs w).
 Definition set_rr_last (x : N) (w : world) : world :=
-  mkWorld (pool_size w) (pool w) (by_actor w) (fq w) (dset w) (drain w) x (avail w) (inq w) (rl w) (next_aid w) (fstatus w) (stop_req w) (held w) (inbox_sup w) (inbox_msg w) (actors w) (now w) (seen w) (evs w).
+  mkWorld (pool_size w) (pool w) (by_actor w) (fq w) (dset w) (drain w) x (avail w) (inq w) (rl w) (next_aid w) (fstatus w) (stop_req w) (held w) (inbox_sup w) (inbox_msg w) (actors w) (now w) (evs w).
 Definition set_avail (x : list N) (w : world) : world :=
-  mkWorld (pool_size w) (pool w) (by_actor w) (fq w) (dset w) (drain w) (rr_last w) x (inq w) (rl w) (next_aid w) (fstatus w) (stop_req w) (held w) (inbox_sup w) (inbox_msg w) (actors w) (now w) (seen w) (evs w).
+  mkWorld (pool_size w) (pool w) (by_actor w) (fq w) (dset w) (drain w) (rr_last w) x (inq w) (rl w) (next_aid w) (fstatus w) (stop_req w) (held w) (inbox_sup w) (inbox_msg w) (actors w) (now w) (evs w).
 Definition set_inq (x : list N) (w : world) : world :=
-  mkWorld (pool_size w) (pool w) (by_actor w) (fq w) (dset w) (drain w) (rr_last w) (avail w) x (rl w) (next_aid w) (fstatus w) (stop_req w) (held w) (inbox_sup w) (inbox_msg w) (actors w) (now w) (seen w) (evs w).
+  mkWorld (pool_size w) (pool w) (by_actor w) (fq w) (dset w) (drain w) (rr_last w) (avail w) x (rl w) (next_aid w) (fstatus w) (stop_req w) (held w) (inbox_sup w) (inbox_msg w) (actors w) (now w) (evs w).
 Definition set_rl (x : list bool) (w : world) : world :=
-  mkWorld (pool_size w) (pool w) (by_actor w) (fq w) (dset w) (drain w) (rr_last w) (avail w) (inq w) x (next_aid w) (fstatus w) (stop_req w) (held w) (inbox_sup w) (inbox_msg w) (actors w) (now w) (seen w) (evs w).
+  mkWorld (pool_size w) (pool w) (by_actor w) (fq w) (dset w) (drain w) (rr_last w) (avail w) (inq w) x (next_aid w) (fstatus w) (stop_req w) (held w) (inbox_sup w) (inbox_msg w) (actors w) (now w) (evs w).
 Definition set_next_aid (x : N) (w : world) : world :=
-  mkWorld (pool_size w) (pool w) (by_actor w) (fq w) (dset w) (drain w) (rr_last w) (avail w) (inq w) (rl w) x (fstatus w) (stop_req w) (held w) (inbox_sup w) (inbox_msg w) (actors w) (now w) (seen w) (evs w).
+  mkWorld (pool_size w) (pool w) (by_actor w) (fq w) (dset w) (drain w) (rr_last w) (avail w) (inq w) (rl w) x (fstatus w) (stop_req w) (held w) (inbox_sup w) (inbox_msg w) (actors w) (now w) (evs w).
 Definition set_fstatus (x : fstat) (w : world) : world :=
-  mkWorld (pool_size w) (pool w) (by_actor w) (fq w) (dset w) (drain w) (rr_last w) (avail w) (inq w) (rl w) (next_aid w) x (stop_req w) (held w) (inbox_sup w) (inbox_msg w) (actors w) (now w) (seen w) (evs w).
+  mkWorld (pool_size w) (pool w) (by_actor w) (fq w) (dset w) (drain w) (rr_last w) (avail w) (inq w) (rl w) (next_aid w) x (stop_req w) (held w) (inbox_sup w) (inbox_msg w) (actors w) (now w) (evs w).
 Definition set_stop_req (x : bool) (w : world) : world :=
-  mkWorld (pool_size w) (pool w) (by_actor w) (fq w) (dset w) (drain w) (rr_last w) (avail w) (inq w) (rl w) (next_aid w) (fstatus w) x (held w) (inbox_sup w) (inbox_msg w) (actors w) (now w) (seen w) (evs w).
+  mkWorld (pool_size w) (pool w) (by_actor w) (fq w) (dset w) (drain w) (rr_last w) (avail w) (inq w) (rl w) (next_aid w) (fstatus w) x (held w) (inbox_sup w) (inbox_msg w) (actors w) (now w) (evs w).
 Definition set_held (x : bool) (w : world) : world :=
-  mkWorld (pool_size w) (pool w) (by_actor w) (fq w) (dset w) (drain w) (rr_last w) (avail w) (inq w) (rl w) (next_aid w) (fstatus w) (stop_req w) x (inbox_sup w) (inbox_msg w) (actors w) (now w) (seen w) (evs w).
+  mkWorld (pool_size w) (pool w) (by_actor w) (fq w) (dset w) (drain w) (rr_last w) (avail w) (inq w) (rl w) (next_aid w) (fstatus w) (stop_req w) x (inbox_sup w) (inbox_msg w) (actors w) (now w) (evs w).
 Definition set_inbox_sup (x : list N) (w : world) : world :=
-  mkWorld (pool_size w) (pool w) (by_actor w) (fq w) (dset w) (drain w) (rr_last w) (avail w) (inq w) (rl w) (next_aid w) (fstatus w) (stop_req w) (held w) x (inbox_msg w) (actors w) (now w) (seen w) (evs w).
+  mkWorld (pool_size w) (pool w) (by_actor w) (fq w) (dset w) (drain w) (rr_last w) (avail w) (inq w) (rl w) (next_aid w) (fstatus w) (stop_req w) (held w) x (inbox_msg w) (actors w) (now w) (evs w).
 Definition set_inbox_msg (x : list fmsg) (w : world) : world :=
-  mkWorld (pool_size w) (pool w) (by_actor w) (fq w) (dset w) (drain w) (rr_last w) (avail w) (inq w) (rl w) (next_aid w) (fstatus w) (stop_req w) (held w) (inbox_sup w) x (actors w) (now w) (seen w) (evs w).
+  mkWorld (pool_size w) (pool w) (by_actor w) (fq w) (dset w) (drain w) (rr_last w) (avail w) (inq w) (rl w) (next_aid w) (fstatus w) (stop_req w) (held w) (inbox_sup w) x (actors w) (now w) (evs w).
 Definition set_actors (x : list (N * actor)) (w : world) : world :=
-  mkWorld (pool_size w) (pool w) (by_actor w) (fq w) (dset w) (drain w) (rr_last w) (avail w) (inq w) (rl w) (next_aid w) (fstatus w) (stop_req w) (held w) (inbox_sup w) (inbox_msg w) x (now w) (seen w) (evs w).
+  mkWorld (pool_size w) (pool w) (by_actor w) (fq w) (dset w) (drain w) (rr_last w) (avail w) (inq w) (rl w) (next_aid w) (fstatus w) (stop_req w) (held w) (inbox_sup w) (inbox_msg w) x (now w) (evs w).
 Definition set_now (x : N) (w : world) : world :=
-  mkWorld (pool_size w) (pool w) (by_actor w) (fq w) (dset w) (drain w) (rr_last w) (avail w) (inq w) (rl w) (next_aid w) (fstatus w) (stop_req w) (held w) (inbox_sup w) (inbox_msg w) (actors w) x (seen w) (evs w).
-Definition set_seen (x : list N) (w : world) : world :=
-  mkWorld (pool_size w) (pool w) (by_actor w) (fq w) (dset w) (drain w) (rr_last w) (avail w) (inq w) (rl w) (next_aid w) (fstatus w) (stop_req w) (held w) (inbox_sup w) (inbox_msg w) (actors w) (now w) x (evs w).
+  mkWorld (pool_size w) (pool w) (by_actor w) (fq w) (dset w) (drain w) (rr_last w) (avail w) (inq w) (rl w) (next_aid w) (fstatus w) (stop_req w) (held w) (inbox_sup w) (inbox_msg w) (actors w) x (evs w).
 Definition set_evs (x : list event) (w : world) : world :=
-  mkWorld (pool_size w) (pool w) (by_actor w) (fq w) (dset w) (drain w) (rr_last w) (avail w) (inq w) (rl w) (next_aid w) (fstatus w) (stop_req w) (held w) (inbox_sup w) (inbox_msg w) (actors w) (now w) (seen w) x.
+  mkWorld (pool_size w) (pool w) (by_actor w) (fq w) (dset w) (drain w) (rr_last w) (avail w) (inq w) (rl w) (next_aid w) (fstatus w) (stop_req w) (held w) (inbox_sup w) (inbox_msg w) (actors w) (now w) x.
 
 Definition emit (e : event) (w : world) : world := set_evs (e :: evs w) w.
 
@@ -561,10 +559,11 @@ Definition dispatch (c : config) (j : job) (w : world) : world :=
 Definition drop_jobs (c : cause) (l : list job) (out : list event) : list event :=
   fold_left (fun o j => EDrop (j_id j) c :: o) l out.
 
-Definition actor_exit (aid : N) (c : cause) (w : world) : world :=
+Definition actor_exit (aid : N) (cm : cause) (w : world) : world :=
   match lookup aid (actors w) with
   | Some a =>
-      let out := drop_jobs c (a_mb a ++ match a_run a with Some j => [j] | None => [] end) (evs w) in
+      let out := drop_jobs cm (a_mb a) (evs w) in
+      let out := match a_run a with Some j => EDrop (j_id j) (CDeath aid) :: out | None => out end in
       set_actors (update aid (mkA (a_wid a) false [] None (a_stop a)) (actors w))
         (set_inbox_sup (inbox_sup w ++ [aid]) (set_evs out w))
   | None => w
@@ -776,11 +775,8 @@ Definition send_msg (s : send) (w : world) : world :=
   let deliver m w := if running_now w then set_inbox_msg (inbox_msg w ++ [m]) w else w in
   match s with
   | SDispatch id key ttl port =>
-      if memN id (seen w) then w          (* ids are unique by construction of the label *)
-      else
-        let w := set_seen (id :: seen w) w in
-        if running_now w then deliver (MDispatch (mkJob id key ttl (now w) port)) w
-        else emit (ESendErr id) w
+      if running_now w then deliver (MDispatch (mkJob id key ttl (now w) port)) w
+      else emit (ESendErr id) w
   | SResize n => deliver (MResize n) w
   | SDrain => deliver MDrain w
   | SSetDisc d => deliver (MSetDisc d) w
@@ -849,7 +845,7 @@ Definition w_complete (aid : N) (w : world) : world :=
 
 Definition w_die (aid : N) (w : world) : world :=
   match lookup aid (actors w) with
-  | Some a => if a_alive a then actor_exit aid (CDeath aid) w else w
+  | Some a => if a_alive a then actor_exit aid (CMailbox aid) w else w
   | None => w
   end.
 
@@ -887,7 +883,7 @@ Definition step (c : config) (w : world) (l : label) : world :=
 Definition run (c : config) (w : world) (ls : list label) : world := fold_left (step c) ls w.
 
 Definition init0 (d : option (N * mode)) (rls : list bool) : world :=
-  mkWorld 0 [] [] [] d NotDraining 0 [] [] rls 0 FRunning false false [] [] [] 0 [] [].
+  mkWorld 0 [] [] [] d NotDraining 0 [] [] rls 0 FRunning false false [] [] [] 0 [].
 
 Fixpoint spawn_initial (c : config) (n : nat) (wid : N) (w : world) : world :=
   match n with O => w | S n' => spawn_initial c n' (wid + 1) (spawn_worker c wid w) end.
